@@ -257,7 +257,23 @@ def check_library_calls(ctx: Ctx):
             ctx.decide("R05.2", f, node, construct + ":count", "component count is requested (return_N=True)", kwargs.get("return_N") is True, {"return_N": repr(kwargs.get("return_N"))}, nontrivial=False)
         else:
             st = kwargs.get("structure", args[1] if len(args) > 1 else None)
-            ctx.decide("R05.2", f, node, construct + ":structure", "scipy label runs with its default face-connectivity structure", st is None, {"structure": repr(st)})
+            verdict, shown = (True, "None") if st is None else (None, repr(st))
+            if st is not None and isinstance(node, ast.Call):
+                # decided by the form of the structuring element: np.ones(...) is full connectivity,
+                # generate_binary_structure(n, 1) is the default; anything else stays undecided
+                se = next((k.value for k in node.keywords if k.arg == "structure"), node.args[1] if len(node.args) > 1 else None)
+                if isinstance(se, ast.Name):
+                    from .common import single_def as _sd
+
+                    se = _sd(f, se.id) or se
+                if isinstance(se, ast.Call):
+                    fn = dotted(se.func) or ""
+                    if fn.split(".")[-1] in ("ones", "ones_like", "full"):
+                        verdict, shown = False, norm(se) + " (every neighbour incl. diagonals: full connectivity)"
+                    elif fn.split(".")[-1] == "generate_binary_structure" and len(se.args) == 2 and isinstance(se.args[1], ast.Constant):
+                        verdict = se.args[1].value == 1
+                        shown = norm(se)
+            ctx.decide("R05.2", f, node, construct + ":structure", "scipy label runs with its default face-connectivity structure", verdict, {"structure": shown})
         rv = out.value
         ok = isinstance(rv, tuple) and len(rv) == 2 and isinstance(rv[0], Tagged) and rv[0].name.startswith("libout:") and rv[1] == Sym("N")
         narrowed = isinstance(rv, tuple) and len(rv) == 2 and not isinstance(rv[0], Tagged)
